@@ -9,6 +9,7 @@ import PsVerif.Model.Proto
 import PsVerif.Model.Sspor
 import PsVerif.Model.Recon
 import PsVerif.Model.Sspoc
+import PsVerif.Model.Geometry
 open PsVerif PsVerif.Proto
 
 def showVerdicts (vs : List StepVerdict) : String :=
@@ -40,6 +41,51 @@ def showMat (M : RMat) : String :=
   let n := M.nrows
   let m := M.ncols
   s!"{n} {m} " ++ " ".intercalate ((M.toList.map fun r => r.toList.map showRat).flatten)
+
+def pShape : P Shape := do
+  let k ← tok
+  match k with
+  | "circle" => do let cx ← rat; let cy ← rat; let r ← rat; pure (.circle cx cy r)
+  | "cylinder" => do
+    let cx ← rat; let cy ← rat; let cz ← rat; let r ← rat; let h ← rat; let a ← tok
+    let ax ← (match a with | "X" => pure CylAxis.X | "Y" => pure CylAxis.Y | "Z" => pure CylAxis.Z | _ => failure : P CylAxis)
+    pure (.cylinder cx cy cz r h ax)
+  | "parabola" => do let h ← rat; let k ← rat; let a ← rat; pure (.parabola h k a)
+  | "ellipse" => do
+    let cx ← rat; let cy ← rat; let w ← rat; let h ← rat; let c ← rat; let s ← rat
+    pure (.ellipse cx cy w h c s)
+  | "polygon" => do
+    let n ← nat
+    let rec go : Nat → List (Rat × Rat) → P (List (Rat × Rat))
+      | 0, acc => pure acc.reverse
+      | k + 1, acc => do let x ← rat; let y ← rat; go k ((x, y) :: acc)
+    let vs ← go n []
+    pure (.polygon vs)
+  | _ => failure
+
+def pLoc : P Loc := do
+  let t ← tok
+  if t == "in" then pure .inside else if t == "out" then pure .outside else failure
+
+/-- sensors with explicit coordinates: `n (id x y z)*`; or a square grid: `grid side ranking` -/
+def pCoords : P ((Nat → Pt) × List Nat) := do
+  let mode ← tok
+  if mode == "grid" then do
+    let side ← nat; let rk ← listOf nat
+    pure (gridPt side, rk)
+  else if mode == "pts" then do
+    let n ← nat
+    let rec go : Nat → List (Nat × Pt) → P (List (Nat × Pt))
+      | 0, acc => pure acc.reverse
+      | k + 1, acc => do
+        let i ← nat; let x ← rat; let y ← rat; let z ← rat
+        go k ((i, { x := x, y := y, z := z }) :: acc)
+    let ps ← go n []
+    pure ((fun i => ((ps.find? fun q => q.1 == i).map (·.2)).getD { x := 0, y := 0 }), ps.map (·.1))
+  else failure
+
+def pOptRatPair : P (Option Rat × Option Rat) := do
+  let a ← optRat; let b ← optRat; pure (a, b)
 
 def handle : P String := do
   let cmd ← tok
@@ -75,6 +121,27 @@ def handle : P String := do
   | "dthresh" => do
     let mag ← listOf rat; let ss ← rat; let r ← nat; let c ← nat
     pure s!"ok {showNats (defaultThreshSel mag ss r c)}"
+  | "shape" => do
+    let sh ← pShape; let loc ← pLoc; let (coord, rk) ← pCoords
+    pure s!"ok {showNats (constraintIndices (sh.constrained loc) coord rk)}"
+  | "line" => do
+    let x1 ← rat; let x2 ← rat; let y1 ← rat; let y2 ← rat; let (coord, rk) ← pCoords
+    pure s!"ok {showNats (constraintIndices (lineConstrained x1 x2 y1 y2) coord rk)}"
+  | "box" => do
+    let a ← rat; let b ← rat; let c ← rat; let d ← rat; let n ← nat; let rk ← listOf nat
+    pure s!"ok {showNats (boxIndices a b c d n rk)}"
+  | "dfbox" => do
+    let a ← rat; let b ← rat; let c ← rat; let d ← rat; let rows ← listOf pOptRatPair
+    pure s!"ok {showNats (dfBoxIndices a b c d rows)}"
+  | "modname" => do
+    let t ← tok
+    pure s!"ok {String.ofList (moduleName t.toList)}"
+  | "modnameold" => do
+    let t ← tok
+    pure s!"ok {String.ofList (moduleNameOld t.toList)}"
+  | "ravel" => do
+    let side ← nat; let x ← nat; let y ← nat
+    pure s!"ok {ravelF side x y}"
   | "predict" => do
     let B ← mat; let sensors ← listOf nat; let Y ← mat
     match predictExact B sensors Y with
